@@ -53,6 +53,10 @@ func genClientCase(rt *rapid.T) *clientCase {
 	} else {
 		c.ServerName = rapid.SampledFrom(upstreamServerNames).Draw(rt, "serverName")
 	}
+	if rapid.IntRange(0, 7).Draw(rt, "noServerName") == 0 {
+		// no server_name configured: there is no name to match, so verification cannot succeed (it may only be skipped)
+		c.ServerName = ""
+	}
 	c.InsecureSkip = rapid.IntRange(0, 3).Draw(rt, "insecureSkip") == 0
 	c.CA = rapid.SampledFrom([]string{"A", "A", "A", "AB", "BA", "B", ""}).Draw(rt, "ca")
 	c.MaxVersion = rapid.SampledFrom([]string{"", "", "tlsv1_2"}).Draw(rt, "maxVersion")
@@ -140,6 +144,12 @@ func clientCaseRun(rt ev.TB, c *clientCase) {
 	}
 	if c.ServerName != strings.ToLower(c.ServerName) {
 		classes = append(classes, "server_name:upper")
+	}
+	if c.ServerName == "" {
+		classes = append(classes, "server_name:none")
+		if !c.InsecureSkip && chainOK {
+			classes = append(classes, "server_name:none/verification-on/chain-valid")
+		}
 	}
 	if c.ServerName == legacyCN {
 		classes = append(classes, "server_name:equals-cn-not-in-san")
